@@ -6,10 +6,12 @@ import numpy as np
 
 __version__ = "0.0-verif-stub"
 _counter = [0]
+CREATED = []          # every EnsembleSampler built since the last reset (the harness asks each whether the caller seeded it)
 
 
 def reset_counter(v=0):
     _counter[0] = v
+    del CREATED[:]
 
 
 class EnsembleSampler:
@@ -22,6 +24,9 @@ class EnsembleSampler:
         self.moves = moves
         _counter[0] += 1
         self._random = np.random.RandomState(1000 + _counter[0])
+        # the real emcee seeds this state from the OS unless the caller sets `random_state` or passes `rstate0` to run_mcmc
+        self.seeded_by_caller = False
+        CREATED.append(self)
         self._chain = None
         self.acceptance_fraction = np.zeros(nwalkers)
 
@@ -30,7 +35,18 @@ class EnsembleSampler:
             return np.asarray(self.log_prob_fn(z, *self.args, **self.kwargs), dtype=float).reshape(-1)
         return np.array([float(self.log_prob_fn(r, *self.args, **self.kwargs)) for r in z])
 
-    def run_mcmc(self, initial_state, nsteps, progress=False, **kw):
+    @property
+    def random_state(self):
+        return self._random.get_state()
+
+    @random_state.setter
+    def random_state(self, state):
+        self._random.set_state(state)
+        self.seeded_by_caller = True
+
+    def run_mcmc(self, initial_state, nsteps, progress=False, rstate0=None, **kw):
+        if rstate0 is not None:
+            self.random_state = rstate0
         z = np.asarray(initial_state, dtype=float).copy()
         lp = self._lp(z)
         chain = []
